@@ -81,6 +81,8 @@ def monitor(case, obs):
             if cur is not None:
                 times[cur[0]] = cur[1]
             cur = (e[1], e[2])
+        elif e[0] == "S" and comps[e[1]]["kind"] == "T" and e[2] >= comps[e[1]]["nout"]:
+            pass  # a static output serves every request time
         elif e[0] == "S" and comps[e[1]]["kind"] == "T":
             if e[3] > times[e[1]]:
                 return (f"update of C{cur[0]} to {cur[1]}: output C{e[1]}.o{e[2]} is asked for {e[3]} but its newest "
